@@ -22,6 +22,7 @@ mod c12;
 mod c15;
 mod c16;
 mod c17;
+mod stdprog;
 
 use std::collections::BTreeMap;
 use std::io::Write;
@@ -124,6 +125,7 @@ fn main() {
         "c15" => c15::run(&args, &mut out),
         "c16" => c16::run(&args, &mut out),
         "c17" => c17::run(&args, &mut out),
+        "stdprog" => stdprog::run(&args, &mut out),
         other => {
             eprintln!("unknown group {other}");
             std::process::exit(2);
